@@ -144,6 +144,10 @@ def _card(self, S):
         self.axioms.append(z3.ForAll([S_, k], z3.Implies(z3.Not(S_[k]), card(z3.Store(S_, k, True)) == card(S_) + 1), patterns=[card(z3.Store(S_, k, True))]))
         self.axioms.append(z3.ForAll([S_, k], z3.Implies(S_[k], card(z3.Store(S_, k, False)) == card(S_) - 1), patterns=[card(z3.Store(S_, k, False))]))
         self.axioms.append(z3.ForAll([S_], z3.Implies(card(S_) == 0, S_ == z3.K(Ty.IntS, z3.BoolVal(False))), patterns=[card(S_)]))
+        # finite sets: a subset of the same cardinality is the whole set
+        T_ = z3.Const("cd!T", SetS)
+        self.axioms.append(z3.ForAll([S_, T_], z3.Implies(z3.And(z3.IsSubset(S_, T_), card(S_) == card(T_)), S_ == T_),
+                                     patterns=[z3.MultiPattern(card(S_), card(T_))]))
     return self.specfns["card"][0](S)
 
 
@@ -656,6 +660,16 @@ def verify_function(contract, registry, quick=True, cli=True, shard=None):
     return res
 
 
+def fresh_default(srt):
+    if srt == Ty.BoolS:
+        return z3.BoolVal(False)
+    if srt == Ty.RealS:
+        return z3.RealVal(0)
+    if srt == Ty.IntS:
+        return z3.IntVal(0)
+    return z3.K(srt.domain(), fresh_default(srt.range()))
+
+
 def _run(eng, contract, fn, res):
     loops = [x for x in ast.walk(fn) if isinstance(x, (ast.For, ast.While))]
     if contract.nloops is not None and len(loops) != contract.nloops:
@@ -711,6 +725,12 @@ def _run(eng, contract, fn, res):
     # lemmas (pure facts over spec functions), proved in order
     for lem in contract.lemmas:
         _prove_lemma(eng, st, lem, res)
+    is_generator = any(isinstance(x, (ast.Yield, ast.YieldFrom)) for x in ast.walk(fn))
+    if is_generator:
+        if not isinstance(contract.returns, Ty.List):
+            raise Unsupported("generator function: the contract must declare the list type of the yielded values")
+        empty = V(contract.returns, [z3.IntVal(0)] + [z3.K(Ty.IntS, fresh_default(srt)) for srt in contract.returns.e.sorts()])
+        st.vars["__yields__"] = eng.alloc(st, empty)
     st.old = (dict(st.vars), dict(st.heap))
     outs = eng.exec_block(st, fn.body)
     npaths = 0
@@ -719,6 +739,8 @@ def _run(eng, contract, fn, res):
         npaths += 1
         if oc == "normal":
             oc = ("return", Ty.mk_none())
+        if is_generator and isinstance(oc, tuple) and oc[0] == "return":
+            oc = ("return", s2.vars["__yields__"])  # the values yielded, in order
         if isinstance(oc, tuple) and oc[0] == "return":
             val = oc[1]
             if isinstance(contract.returns, Ty.Opt):
